@@ -453,7 +453,20 @@ fn exec_plan<C: Cfg>(
             return Outcome::NoEffect;
         }
     } else if !mismatches.is_empty() {
-        return Outcome::RunnerError(format!("honest transcript differs from native: {}", mismatches[0]));
+        // the unfaulted run itself samples something else than the native challenger: if that
+        // run is provable and accepted, it is the very thing the property forbids (no deviation
+        // needed); otherwise it is reported as a harness-level inconclusive by the caller
+        let proof = match guarded(|| <C::S as Setup>::prove(&kit.prover, &traces, &kit.cpd)) {
+            Ok(Ok(p)) => p,
+            _ => return Outcome::RunnerError(format!("honest transcript differs from native: {}", mismatches[0])),
+        };
+        return match guarded(|| <C::S as Setup>::verify(&kit.prover, &proof)) {
+            Ok(Ok(())) => {
+                mismatches.truncate(4);
+                Outcome::Accepted { mismatches }
+            }
+            _ => Outcome::RunnerError(format!("honest transcript differs from native: {}", mismatches[0])),
+        };
     } else {
         // the honest row inputs the row-input family forges from; sanity: the plain permutation of
         // the recorded inputs is what the (hooked) executor produced, row by row
@@ -587,6 +600,13 @@ fn run_history<C: Cfg>(
             }
             out.push(r);
             pin
+        }
+        Outcome::Accepted { mismatches } => {
+            return vec![CaseResult::violated(
+                format!("{base_key}|honest"),
+                format!("honest-run-accepted-with-non-native-challenge/{}", C::NAME),
+                detail::<C>(h, recompose, &Plan::Honest, json!({"accepted_with_non_native_challenges": mismatches, "permutations": nat.perms})),
+            )];
         }
         o => {
             return vec![CaseResult::inconclusive(
